@@ -1,4 +1,5 @@
 from sqv.driver import Obligation
+from sqv.props.c06 import lrc_precheck, lrc_obligations
 from sqv import nodes
 
 
@@ -22,7 +23,9 @@ def plan(ctx):
             oid = f"node.{p['kind']}" + (f".{p['op']}" if p['op'] else "")
             obs.append(Obligation(oid, "xh", "c16", "node_failure", param=p, timeout=T,
                                   bounds="name bound or unbound (symbolic)", desc="unbound name / unsupported operator => ParserError"))
+    obs += lrc_obligations(ctx, ["consistency"], prefix="lrc.")
     return {
+        "precheck": lrc_precheck,
         "obligations": obs,
         "explanation": "CrossHair (z3) symbolic execution of the real failure paths: runtime failures through SqParser.eval with "
                        "symbolic keys/indices/budget, p_error for an arbitrary token or None, t_error, the reserved-word action, "
